@@ -1,4 +1,5 @@
 import XmpProofs.FmtMod
+import XmpProofs.FmtPcm
 import XmpModel.FmtXm
 /-!
 # XM pattern-cell codec round trip (`Xmp.Fmt.Xm.decCells (encCells …) = cells`)
@@ -193,128 +194,3 @@ theorem decCells_encCells (cs : List Cell) (h : ∀ c ∈ cs, CellOk c) (fx : Na
     simp only [ih (fun c hc => h c (by simp [hc])) (i + 1), Option.map_some]
 
 end Xmp.Fmt.Xm
-
-namespace Xmp.Fmt
-open Xmp
-
-/-- delta decoding undoes delta encoding (8-bit and 16-bit moduli) -/
-theorem deltaDecN_deltaEncN (m : Nat) (hm : m = 256 ∨ m = 65536) (xs : List Nat) (h : ∀ x ∈ xs, x < m)
-    (acc : Nat) (hacc : acc < m) : deltaDecN m acc (deltaEncN m acc xs) = xs := by
-  induction xs generalizing acc with
-  | nil => rfl
-  | cons x r ih =>
-    have hx : x < m := h x (by simp)
-    have e : ((x + m - acc % m) % m + acc) % m = x := by
-      rcases hm with hm | hm <;> subst hm <;> omega
-    simp only [deltaEncN, deltaDecN, e]
-    rw [ih (fun y hy => h y (by simp [hy])) x hx]
-
-theorem deltaEncN_lt (m : Nat) (hm : 0 < m) (xs : List Nat) (prev : Nat) : ∀ d ∈ deltaEncN m prev xs, d < m := by
-  induction xs generalizing prev with
-  | nil => simp [deltaEncN]
-  | cons x r ih =>
-    intro d hd
-    simp only [deltaEncN, List.mem_cons] at hd
-    rcases hd with hd | hd
-    · subst hd; exact Nat.mod_lt _ hm
-    · exact ih x d hd
-
-/-- **8-bit delta PCM codec** (XM samples) -/
-theorem deltaDec_deltaEnc8 (b : Bytes) : deltaDec false (deltaEnc false b) = b := by
-  unfold deltaDec deltaEnc
-  simp only [Bool.false_eq_true, if_false, List.map_map]
-  have h1 : (List.map (fun x => x.toNat) ∘ List.map u8) (deltaEncN 256 0 (b.map (·.toNat))) = deltaEncN 256 0 (b.map (·.toNat)) := by
-    simp only [Function.comp, List.map_map]
-    conv => rhs; rw [← List.map_id (deltaEncN 256 0 (b.map (·.toNat)))]
-    apply List.map_congr_left
-    intro d hd
-    have := deltaEncN_lt 256 (by omega) _ _ d hd
-    simp [u8_toNat_lt this]
-  have h2 : (deltaEncN 256 0 (b.map (·.toNat))).map ((fun x => x.toNat) ∘ u8) = deltaEncN 256 0 (b.map (·.toNat)) := by
-    simpa [Function.comp, List.map_map] using h1
-  rw [h2, deltaDecN_deltaEncN 256 (Or.inl rfl) _ (by intro x hx; simp at hx; obtain ⟨y, _, rfl⟩ := hx; exact y.toNat_lt) 0 (by omega)]
-  simp only [List.map_map]
-  conv => rhs; rw [← List.map_id b]
-  apply List.map_congr_left
-  intro x _
-  simp [u8]
-
-
-theorem words_unwords (ws : List Nat) (h : ∀ w ∈ ws, w < 65536) : words (unwords ws) = ws := by
-  induction ws with
-  | nil => rfl
-  | cons w r ih =>
-    have hw := h w (by simp)
-    simp only [unwords, words, u8_toNat, ih (fun y hy => h y (by simp [hy]))]
-    congr 1; omega
-
-theorem unwords_words (n : Nat) (b : Bytes) (h : b.length = 2 * n) : unwords (words b) = b := by
-  induction n generalizing b with
-  | zero =>
-    have : b = [] := List.eq_nil_of_length_eq_zero (by omega)
-    subst this; rfl
-  | succ n ih =>
-    match b, h with
-    | x :: y :: r, h =>
-      have hx := x.toNat_lt
-      have hy := y.toNat_lt
-      have e1 : (x.toNat + 256 * y.toNat) % 256 = x.toNat := by omega
-      have e2 : (x.toNat + 256 * y.toNat) / 256 % 256 = y.toNat := by omega
-      simp only [words, unwords, e1, e2, ih r (by simp at h; omega)]
-      simp [u8]
-
-theorem words_lt (b : Bytes) : ∀ w ∈ words b, w < 65536 := by
-  intro w hw
-  induction b using words.induct with
-  | case1 a c r ih =>
-    simp only [words, List.mem_cons] at hw
-    rcases hw with hw | hw
-    · have := a.toNat_lt; have := c.toNat_lt; omega
-    · exact ih hw
-  | case2 b hb =>
-    unfold words at hw
-    split at hw
-    · exact absurd rfl (hb _ _ _)
-    · simp at hw
-
-theorem words_length (n : Nat) (b : Bytes) (h : b.length = 2 * n) : (words b).length = n := by
-  induction n generalizing b with
-  | zero =>
-    have : b = [] := List.eq_nil_of_length_eq_zero (by omega)
-    subst this; rfl
-  | succ n ih =>
-    match b, h with
-    | x :: y :: r, h => simp only [words, List.length_cons, ih r (by simp at h; omega)]
-
-/-- **16-bit delta PCM codec** (XM samples), for byte strings of even length -/
-theorem deltaDec_deltaEnc16 (b : Bytes) (n : Nat) (h : b.length = 2 * n) : deltaDec true (deltaEnc true b) = b := by
-  unfold deltaDec deltaEnc
-  simp only [if_true]
-  rw [words_unwords _ (deltaEncN_lt 65536 (by omega) _ _),
-    deltaDecN_deltaEncN 65536 (Or.inr rfl) _ (words_lt b) 0 (by omega), unwords_words n b h]
-
-
-/-- 16-bit sign conversion is an involution on byte strings of even length -/
-theorem flip16_twice (w : Nat) (h : w < 65536) : ((w + 32768) % 65536 + 32768) % 65536 = w := by omega
-
-/-- the word map of `signFlip true` -/
-def flipW (w : Nat) : Nat := (w + 0x8000) % 0x10000
-
-theorem flipW_lt (w : Nat) : flipW w < 65536 := by unfold flipW; omega
-theorem flipW_flipW (w : Nat) (h : w < 65536) : flipW (flipW w) = w := by unfold flipW; omega
-
-theorem signFlip16_eq (b : Bytes) : signFlip true b = unwords ((words b).map flipW) := by
-  unfold signFlip; simp only [if_true]; rfl
-
-theorem signFlip16_involutive (b : Bytes) (n : Nat) (h : b.length = 2 * n) : signFlip true (signFlip true b) = b := by
-  rw [signFlip16_eq, signFlip16_eq,
-    words_unwords _ (by intro w hw; simp only [List.mem_map] at hw; obtain ⟨y, _, rfl⟩ := hw; exact flipW_lt y),
-    List.map_map]
-  have : (words b).map (flipW ∘ flipW) = words b := by
-    conv => rhs; rw [← List.map_id (words b)]
-    apply List.map_congr_left
-    intro w hw
-    exact flipW_flipW w (words_lt b w hw)
-  rw [this, unwords_words n b h]
-
-end Xmp.Fmt
